@@ -165,6 +165,32 @@ class Ctx:
             "mismatches": co["mismatches"][:5],
         }
 
+    def bmc(self, name, hw, bad, assume=None, k=None, undecided_if_clean=False):
+        """Representation-independent bounded search from reset for an input trace reaching `bad` (a formula over state,
+        ghost state and inputs). A trace is a violation (replayed on Amaranth's simulator); finding none within k cycles
+        is recorded as a *bounded* result, or as undecided when `undecided_if_clean` (the deductive contract could not be
+        applied, e.g. because the representation it names is gone)."""
+        name = self._uniq(name)
+        k = k if k is not None else (8 if self.tier == "quick" else 14)
+        t0 = time.time()
+        found = hw.find_trace(bad, assume=assume, max_k=k, timeout_ms=60000 if self.tier == "quick" else 240000)
+        dt = time.time() - t0
+        self.solver_time += dt
+        if found is not None:
+            kk, stim = found
+            co = hw.cosim(stim)
+            rec = {"name": name, "cfg": self.cfg, "time_s": round(dt, 3), "backend": "z3-" + z3.get_version_string() + " (bounded search)", "verdict": "violated",
+                   "trace": {"length": kk + 1, "inputs": [{hw.port_name(s): v for s, v in d.items()} for d in stim],
+                             "simulator_observed_last_cycle": co["observed"][-1] if co["observed"] else {}, "simulator_agrees_with_model": not co["mismatches"], "mismatches": co["mismatches"][:5]}}
+            self.records.append(rec)
+            return False
+        if undecided_if_clean:
+            self.records.append({"name": name, "cfg": self.cfg, "time_s": round(dt, 3), "backend": "z3 (bounded search)", "verdict": "unknown",
+                                 "reason": f"deductive contract not applicable to this representation; bounded interface search to depth {k} found no violation"})
+        else:
+            self.bounded_result(name, k + 1, k + 1, [], rule=f"symbolic search over all input sequences of length <= {k + 1} from reset against a ghost specification state (bounded model checking, not a proof)", samples=[{"depth": k + 1}], exhaustive=True)
+        return True
+
     def finish(self):
         """For a failed invariant-preservation obligation, additionally search from reset for an input
         trace after which an interface-level postcondition (ready/result/view step, evaluated on the raw
